@@ -5,6 +5,7 @@ package varmq
 
 //@ package varmq
 //@ type job: frozen id, data
+//@ type job: atomic status
 
 // ---------------------------------------------------------------- job.go
 // A single job's WaitGroup is 1 until the job is closed, then 0 (Wait returns exactly when the job is closed).
